@@ -235,3 +235,71 @@ macro_rules! for_both {
         $f::<blsful::Bls12381G2Impl>($($args),*);
     }};
 }
+
+// ---- share containers built from points (identifier + compressed bytes) -----------------------------
+use blsful::vsss_rs::Share;
+
+pub fn raw_pk_share<C: Suite>(id: u8, bytes: &[u8]) -> <C as Pairing>::PublicKeyShare {
+    let mut s = <C as Pairing>::PublicKeyShare::empty_share_with_capacity(bytes.len());
+    *s.identifier_mut() = id;
+    s.value_mut(bytes).expect("share payload length");
+    s
+}
+pub fn raw_sig_share<C: Suite>(id: u8, bytes: &[u8]) -> <C as Pairing>::SignatureShare {
+    let mut s = <C as Pairing>::SignatureShare::empty_share_with_capacity(bytes.len());
+    *s.identifier_mut() = id;
+    s.value_mut(bytes).expect("share payload length");
+    s
+}
+pub fn mk_pk_share<C: Suite>(id: u8, p: &PkP<C>) -> PublicKeyShare<C> {
+    PublicKeyShare(raw_pk_share::<C>(id, &pt(p)))
+}
+pub fn mk_sig_share<C: Suite>(s: Scheme, id: u8, p: &SgP<C>) -> SignatureShare<C> {
+    let raw = raw_sig_share::<C>(id, &pt(p));
+    match s {
+        Scheme::Basic => SignatureShare::Basic(raw),
+        Scheme::Aug => SignatureShare::MessageAugmentation(raw),
+        Scheme::Pop => SignatureShare::ProofOfPossession(raw),
+    }
+}
+pub fn mk_multi_sig<C: Suite>(s: Scheme, p: SgP<C>) -> MultiSignature<C> {
+    match s {
+        Scheme::Basic => MultiSignature::Basic(p),
+        Scheme::Aug => MultiSignature::MessageAugmentation(p),
+        Scheme::Pop => MultiSignature::ProofOfPossession(p),
+    }
+}
+pub fn mk_agg_sig<C: Suite>(s: Scheme, p: SgP<C>) -> AggregateSignature<C> {
+    match s {
+        Scheme::Basic => AggregateSignature::Basic(p),
+        Scheme::Aug => AggregateSignature::MessageAugmentation(p),
+        Scheme::Pop => AggregateSignature::ProofOfPossession(p),
+    }
+}
+/// verdict of a library call wrapped in `guard`: "Ok" / "Err" / "PANIC"
+pub fn verdict<T, E>(r: &Result<Result<T, E>, String>) -> &'static str {
+    match r {
+        Ok(Ok(_)) => "Ok",
+        Ok(Err(_)) => "Err",
+        Err(_) => "PANIC",
+    }
+}
+
+// ---- environment (hook) ownership ---------------------------------------------------------------------
+
+/// Run `f` with the entropy seam answering from `answers` (then from a counter) and the clock fixed.
+/// Both overrides are removed afterwards, also when `f` panics.
+pub fn with_env<T>(answers: Vec<[u8; 32]>, clock_ms: Option<u64>, f: impl FnOnce() -> T) -> Result<T, String> {
+    blsful::verif_hooks::set_entropy(Some(answers));
+    blsful::verif_hooks::set_clock_ms(clock_ms);
+    let r = crate::engine::guard(f);
+    blsful::verif_hooks::set_entropy(None);
+    blsful::verif_hooks::set_clock_ms(None);
+    r
+}
+
+pub fn entropy_stream(seed: u64, label: &str, n: usize) -> Vec<[u8; 32]> {
+    (0..n).map(|i| data32(seed, &format!("entropy-{}-{}", label, i))).collect()
+}
+
+pub const CLOCK0: u64 = 1_700_000_000_000;
